@@ -721,7 +721,7 @@ def _mono_cases(draw, tier):
     if draw(st.booleans()):
         xs = sorted(-x for x in xs)
     if len(xs) < 2:
-        xs = [xs[0], xs[0] * 1.5] if xs[0] > 0 else [xs[0] * 1.5, xs[0]]
+        xs = [xs[0] / 1.5, xs[0]] if xs[0] > 0 else [xs[0], xs[0] / 1.5]
     case["loads"] = xs
     case["spacing"] = mode
     return case
